@@ -382,6 +382,7 @@ def check(ctx: Ctx) -> None:
 
 B, F, D = "pipefunc/map/_storage_array/_base.py", "pipefunc/map/_storage_array/_file.py", "pipefunc/map/_storage_array/_dict.py"
 MUTANTS = [
+    Mutant("dict-get-or-masked", "pipefunc/map/_storage_array/_dict.py", "                    if external_key in self._dict:\n                        value = self._dict[external_key]\n                    else:\n                        value = self._internal_mask()\n", "                    value = self._dict.get(external_key) or self._internal_mask()\n", ("C07.5-siblings",), why="round-8 seed C07/22"),
     Mutant("slice-of-indices", "pipefunc/map/_storage_array/_dict.py", "                len(range(*k.indices(s))) if isinstance(k, slice) else 1\n", "                len(range(*slice(*k.indices(s)).indices(s))) if isinstance(k, slice) else 1\n", ("C07.2-normaliser",), why="round-6 seed C07/17 (expected count zero: positive example)"),
     Mutant("mask-linear-slices-0d-mask-F46", "pipefunc/map/_storage_array/_dict.py", "        return list(self.mask.data.flat)", "        return list(self.mask.data[:].flat)", ("C07.1-rank-domain",), why="original F46"),
     Mutant("axisless-squeeze", "pipefunc/map/_storage_array/_dict.py", "            return data.reshape(new_shape)\n", "            return data.squeeze()\n", ("C07.5-siblings",), why="round-4 seed C01/10"),
